@@ -47,6 +47,8 @@ def subst_value(v, a, b):
         return VTuple([subst_value(x, a, b) for x in v.items])
     if isinstance(v, (VNone, VConc, VOpaque, VObj)):
         return v
+    if type(v).__name__ == "VNp":
+        return type(v)(z3.substitute(v.t, (a, b)))
     raise Unsupported(f"substitution in {v!r}")
 
 
@@ -120,6 +122,8 @@ def _terms(v):
         return [v.k, v.v]
     if isinstance(v, VTuple):
         return [t for x in v.items for t in _terms(x)]
+    if type(v).__name__ == "VNp":
+        return [v.t]
     return []
 
 
